@@ -82,6 +82,48 @@ def rule_R10_2(ctx):
     return r
 
 
+def _polarity(f, at_, region, op, want):
+    """(negated?, built from `want`?) of the Value::Bool built for operator
+    `op`, or None.  `at_(bb)` gives the operators with which control reaches
+    bb."""
+    blocks = {bb for bb in region if at_(bb) == {op}}
+    shared = {bb for bb in region if op in at_(bb)} - blocks
+    found = None
+    for bb in sorted(blocks) + sorted(shared):
+        if found is not None and bb in shared:
+            break
+        for s in f.stmts(bb):
+            if s[0] == "=" and s[2][0] == "agg" and s[2][1].get("k") == "adt" \
+                    and s[2][1]["adt"] == VALUE and s[2][1]["variant"] == "Bool":
+                o = s[2][2][0]
+                is_neg = False
+                for _ in range(4):
+                    if not mir.is_place_operand(o):
+                        break
+                    pl = mir.op_place(o)
+                    if pl[1]:
+                        break
+                    sd = f.single_def(pl[0])
+                    multi = sd is None
+                    if sd is None:
+                        # assigned on several paths (`if matches!(op, Eq) { v }
+                        # else { !v }`): the definition made on this operator's path
+                        ds = [d_ for d_ in f.defs().get(pl[0], []) if at_(d_[0]) == {op}]
+                        sd = ds[0] if len(ds) == 1 else None
+                    if sd is None or sd[2] != "rv":
+                        break
+                    if sd[3][0] == "un" and sd[3][1] == "Not":
+                        is_neg = not is_neg
+                        o = sd[3][2]
+                    elif sd[3][0] == "use" and mir.is_place_operand(sd[3][1]) and multi:
+                        o = sd[3][1]
+                    else:
+                        break
+                src = f.canon_op(o)
+                found = (is_neg, src == want)
+    return found
+
+
 def rule_R10_3(ctx):
     prog = ctx.prog
     r = RuleResult("R10.3", "`!=`/`!==` are the negation of the one result "
@@ -107,23 +149,40 @@ def rule_R10_3(ctx):
             continue
         cb = calls[0].bb
         want = (("call", cb), ("d", payload), ("f", 0))
+        # the polarity may be decided inside a closure handed to `.map(..)`
+        # on the helper's result (`ref_eq(l, r).map(|v| Value::Bool(if
+        # matches!(op, RefEq) { v } else { !v }))`)
+        scope = (f, lambda b_: {t[0] for t in pt.vf.at(b_)}, region, want)
+        direct = any(s_[0] == "=" and s_[2][0] == "agg" and s_[2][1].get("adt") == VALUE
+                     and s_[2][1].get("variant") == "Bool"
+                     for b_ in region for s_ in f.stmts(b_))
+        if not direct:
+            for u in ops.forward_users(f, calls[0]):
+                if (u.res or "").split("::")[-1] != "map" or len(u.args) < 2:
+                    continue
+                cpu = f.canon_op(u.args[1])
+                if cpu[0][0] != "agg":
+                    continue
+                kd_ = f.stmts(cpu[0][1])[cpu[0][2]][2][1]
+                hcl = prog.fns.get(kd_.get("def", "")) if kd_.get("k") == "closure" else None
+                if hcl is None or not hcl.full:
+                    continue
+                opcp = None
+                for b_ in range(len(hcl.blocks)):
+                    if hcl.is_cleanup(b_) or hcl.term(b_)["k"] != "switch":
+                        continue
+                    i_ = hcl.switch_info(b_)
+                    if i_ and i_["kind"] == "discr" and i_["enum"] == BINOP:
+                        opcp = hcl.canon(i_["place"])
+                if opcp is None:
+                    continue
+                hvf = mir.VariantFlow(hcl, [(opcp, BINOP)], init={(pos,), (neg,)})
+                scope = (hcl, lambda b_, hvf=hvf: {t[0] for t in hvf.at(b_)},
+                         set(hcl.reachable()), (("arg", 2),))
+                r.inst("%s/%s: polarity decided in closure %s" % (pos, neg, hcl.path))
+        sf, at_, sregion, swant = scope
         for op, negated in ((pos, False), (neg, True)):
-            blocks = {bb for bb in region if {t[0] for t in pt.vf.at(bb)} == {op}}
-            found = None
-            for bb in sorted(blocks):
-                for s in f.stmts(bb):
-                    if s[0] == "=" and s[2][0] == "agg" and s[2][1].get("k") == "adt" \
-                            and s[2][1]["adt"] == VALUE and s[2][1]["variant"] == "Bool":
-                        o = s[2][2][0]
-                        is_neg = False
-                        if mir.is_place_operand(o):
-                            pl = mir.op_place(o)
-                            sd = f.single_def(pl[0]) if not pl[1] else None
-                            if sd and sd[2] == "rv" and sd[3][0] == "un" and sd[3][1] == "Not":
-                                is_neg = True
-                                o = sd[3][2]
-                        src = f.canon_op(o)
-                        found = (is_neg, src == want)
+            found = _polarity(sf, at_, sregion, op, swant)
             if found is None:
                 r.fail("%s | op=%s no-bool-result" % (f.path, op),
                        "no boolean result is built specifically for %s" % op)
